@@ -1117,6 +1117,9 @@ Definition step (cfg : config) (fx : fixes) (s : state) (l : label) : state * li
           | None => (s, [])
           | Some m =>
             if negb (m_has_header m) then apply_err s c h (refuse s (ConnErr FrameError 0 0))
+            else if m_hsize m <? m_size m + len then
+              (* more content than announced (F55 repaired): the message is dropped *)
+              apply_err s c h (refuse (upd_chan s c h (fun ch => ch <| ch_cur := None |>)) (ConnErr FrameError 0 0))
             else
               let s := upd_msg s u (fun m => m <| m_body ::= fun b => b ++ [len] |> <| m_size ::= fun z => z + len |>) in
               if (m_size m + len) <? m_hsize m then (s, []) else finish_publish fx s c h u
